@@ -176,3 +176,22 @@ Theorem c03_extracted_holders_are_well_formed : forall fuel e k stmt ctx g, extr
   HIb g = true /\ RefineDefs.wf_holder (holder_of g) = true /\ CompDefs.plain_holder (holder_of g) = true.
 Proof. exact extract_wf. Qed.
 Print Assumptions c03_extracted_holders_are_well_formed.
+
+(** * Scripts that mix Lemma-A-fragment statements with UPDATE / MERGE / SELECT .. INTO (Tree/ScriptRolesDml.v): the sources, targets
+    and intermediates the pipeline reports are those the property's definition computes from the SPECIFIED reads and writes.  Needed
+    a new invariant theorem for the MERGE extractor (extract_merge_HI: any tree). *)
+From SV Require Import Ast.SpecDml Tree.RenderDml Tree.LemmaADmlDefs Tree.ScriptExactDml Tree.ScriptRolesDml.
+Theorem c03_script_roles_exact_with_update_merge_select_into : forall noise e xs,
+  noise_ok noise = true -> env_ok e = true ->
+  Forall (fun x => match x with
+                   | SS s => stmt_ok s = true /\ sshape s = true
+                   | SD d => dml_ok d = true end) xs ->
+  script_sources e false [] (map (r_sstmt_a noise) xs) = spec_sources_xd (e_cfg e) xs /\
+  script_targets e false [] (map (r_sstmt_a noise) xs) = spec_targets_xd (e_cfg e) xs /\
+  script_intermediates e false [] (map (r_sstmt_a noise) xs) = spec_intermediates_xd (e_cfg e) xs.
+Proof. exact script_roles_exact_xd. Qed.
+Print Assumptions c03_script_roles_exact_with_update_merge_select_into.
+
+Theorem c03_merge_holders_are_well_formed : forall fuel e stmt g, extract_merge fuel e stmt = Ok g -> HI g.
+Proof. exact extract_merge_HI. Qed.
+Print Assumptions c03_merge_holders_are_well_formed.
